@@ -173,6 +173,11 @@ func builtinAttrNames(methods map[string]*Builtin) []string {
 	return names
 }
 
+// maxPrealloc bounds the capacity a built-in allocates up front on the
+// strength of a sequence's reported length (range(1<<62) reports 1<<62):
+// beyond it the result grows as the elements actually arrive.
+const maxPrealloc = 1 << 16
+
 // ---- built-in functions ----
 
 // https://github.com/google/starlark-go/blob/master/doc/spec.md#abs
@@ -256,7 +261,7 @@ func bytes_(thread *Thread, _ *Builtin, args Tuple, kwargs []Tuple) (Value, erro
 		var buf strings.Builder
 		if n := Len(x); n >= 0 {
 			// common case: known length
-			buf.Grow(n)
+			buf.Grow(min(n, maxPrealloc))
 		}
 		iter := x.Iterate()
 		defer iter.Done()
@@ -345,7 +350,7 @@ func enumerate(thread *Thread, _ *Builtin, args Tuple, kwargs []Tuple) (Value, e
 	var pairs []Value
 	var x Value
 
-	if n := Len(iterable); n >= 0 {
+	if n := Len(iterable); n >= 0 && n <= maxPrealloc {
 		// common case: known length
 		pairs = make([]Value, 0, n)
 		array := make(Tuple, 2*n) // allocate a single backing array
@@ -687,7 +692,7 @@ func list(thread *Thread, _ *Builtin, args Tuple, kwargs []Tuple) (Value, error)
 		iter := iterable.Iterate()
 		defer iter.Done()
 		if n := Len(iterable); n > 0 {
-			elems = make([]Value, 0, n) // preallocate if length known
+			elems = make([]Value, 0, min(n, maxPrealloc)) // preallocate if length known
 		}
 		var x Value
 		for iter.Next(&x) {
@@ -1057,7 +1062,7 @@ func reversed(thread *Thread, _ *Builtin, args Tuple, kwargs []Tuple) (Value, er
 	defer iter.Done()
 	var elems []Value
 	if n := Len(args[0]); n >= 0 {
-		elems = make([]Value, 0, n) // preallocate if length known
+		elems = make([]Value, 0, min(n, maxPrealloc)) // preallocate if length known
 	}
 	var x Value
 	for iter.Next(&x) {
@@ -1108,7 +1113,7 @@ func sorted(thread *Thread, _ *Builtin, args Tuple, kwargs []Tuple) (Value, erro
 	defer iter.Done()
 	var values []Value
 	if n := Len(iterable); n > 0 {
-		values = make(Tuple, 0, n) // preallocate if length is known
+		values = make(Tuple, 0, min(n, maxPrealloc)) // preallocate if length is known
 	}
 	var x Value
 	for iter.Next(&x) {
@@ -1208,7 +1213,7 @@ func tuple(thread *Thread, _ *Builtin, args Tuple, kwargs []Tuple) (Value, error
 	defer iter.Done()
 	var elems Tuple
 	if n := Len(iterable); n > 0 {
-		elems = make(Tuple, 0, n) // preallocate if length is known
+		elems = make(Tuple, 0, min(n, maxPrealloc)) // preallocate if length is known
 	}
 	var x Value
 	for iter.Next(&x) {
@@ -1254,6 +1259,9 @@ func zip(thread *Thread, _ *Builtin, args Tuple, kwargs []Tuple) (Value, error) 
 		}
 	}
 	var result []Value
+	if rows > maxPrealloc {
+		rows = -1 // too long to allocate in one go: grow as the elements arrive
+	}
 	if rows >= 0 {
 		// length known
 		result = make([]Value, rows)
